@@ -58,7 +58,9 @@ Handler ==
      /\ ids \subseteq 1..Len(log)
      /\ (Check = "C01") =>
            /\ \A x \in ids : x \notin hr \/ IsCR(log[x])
-           /\ Cardinality(ids) = Cardinality({k \in 1..Len(Ev.ids) : Ev.ids[k] # 0})
+           \* no update twice in one batch either; a zero-count update (read mark) occupies no position and may be
+           \* handed over again, across calls (above) as well as when a stale buffered copy rides along in one call
+           /\ \A a, b \in 1..Len(Ev.ids) : (a # b /\ Ev.ids[a] # 0 /\ Ev.ids[a] = Ev.ids[b]) => IsCR(log[Ev.ids[a]])
            /\ (Ev.via = "push") => \A x \in {y \in ids : ~IsCR(log[y])} : \A j \in 1..(x - 1) :
                    (SameSeq(x, j) /\ Deliverable(log[j])) => (j \in hr \/ j \in ids \/ Covered(j))
      /\ hr' = hr \cup ids /\ he' = he \cup ids
